@@ -7,8 +7,15 @@ Import ListNotations.
 
 (* a failed session-auth callback: the whole trace is [SessAuth false; Close] - no handler, no response *)
 Theorem C09_session_gate : forall T K c input script,
-  c_sess_auth c = Some false -> session T K c input script = [ESessAuth false; EClose CloseError].
-Proof. intros T K c input script H. pose proof (session_trace T K c input script) as S. rewrite H in S. exact S. Qed.
+  c_tls c = None -> c_sess_auth c = Some false -> session T K c input script = [ESessAuth false; EClose CloseError].
+Proof. intros T K c input script Ht H. pose proof (session_trace T K c input script Ht) as S. rewrite H in S. exact S. Qed.
+
+(* on a TLS connection a failed handshake ends the session before any callback, handler or response *)
+Theorem C09_handshake_gate : forall T K c input script,
+  c_tls c = Some false ->
+  session T K c input script = arm_r c ++ arm_w c ++ [EHandshake false; EClose CloseError].
+Proof. intros T K c input script H. rewrite (session_tls T K c input script false H). reflexivity. Qed.
+Print Assumptions C09_handshake_gate.
 Print Assumptions C09_session_gate.
 
 (* a request is processed iff it is admitted: consistent, and - if it carries credentials - a
